@@ -506,8 +506,10 @@ pub fn run_c01(tier: &str, sink: &Sink) -> (EngA, AOut) {
 pub fn limit_engine(e: &EngA) -> (EngA, Vec<Prog>) {
     let big = [MAX_SAFE - 1, MAX_SAFE];
     let mut progs: Vec<Prog> = vec![];
+    // multi-digit components (the main alphabet only has one-digit numbers): 9 -> 10 carries etc.
+    let mid = [9u64, 10, 11, 99, 100];
     for op in ALL_OPS {
-        for &b in &big {
+        for &b in mid.iter().chain(big.iter()) {
             for len in 1..=3usize {
                 for pos in 0..len {
                     let mut comps = vec![Cmp::N(1); len];
@@ -552,7 +554,7 @@ pub fn limit_engine(e: &EngA) -> (EngA, Vec<Prog>) {
     }
     let mut vs = critical_points(&bvs);
     vs.extend(grid(1, &["", "a"]));
-    for &b in &big {
+    for &b in mid.iter().chain(big.iter()) {
         for t in ["", "a"] {
             vs.push(ver(b, 0, 0, t));
             vs.push(ver(1, b, 0, t));
